@@ -420,6 +420,8 @@ CORPUS = [
     lambda: {(Leaf("k1"), Leaf("k2")): [Leaf("v")], P2(Leaf("x"), Leaf("y")): {Leaf("e1"), Leaf("e2")}},
     lambda: [P3(Leaf("a"), (Leaf("b"),)), P0(), P1([Leaf("c")])],
     lambda: P2Sub(Leaf("x"), Leaf("y")),
+    lambda: {(Leaf("t%d" % i), Leaf("t%d" % (100 + i))) for i in range(12)},              # sets of labelled containers
+    lambda: [{P2(Leaf("t%d" % i), Leaf("t%d" % (200 + i))) for i in range(12)}, {make_dc("D2F", [Leaf("t%d" % i), Leaf("t%d" % (300 + i))]) for i in range(10)}],
     lambda: [P3Sub(Leaf("a"), P2SubSub(Leaf("b"), [Leaf("c")])), {P1Sub(Leaf("k")): P2Sub(Leaf("v"), P2(Leaf("w"), Leaf("z")))}],
     lambda: {Leaf("a"): Leaf("b"), Leaf("c"): Leaf("d")},
     lambda: [[], (), {}, set(), [[[Leaf("deep")]]]],
@@ -655,7 +657,27 @@ def scheduler_stage(ctx, g):
         ({make_dc("D2F", [inc(6), 7]): inc(8)}, {make_dc("D2F", [106, 7]): 108}),
         ({inc(9): 1, (inc(10), (inc(11),)): 2}, {109: 1, (110, (111,)): 2}),
     ]
-    todo = fixed + [build(rng.choice([1, 2, 3])) for _ in range(ctx.n(40, 400))]
+    def labelled_set(n, kind, wrap):
+        """a set whose elements are containers holding a LABEL and an expression: label i must end up next to the result of
+        the call with argument i (every expression is replaced by its own result, whatever the iteration orders are)"""
+        def el(i, v):
+            if kind == "tuple":
+                return ("L%d" % i, v)
+            if kind == "nt":
+                return P2("L%d" % i, v)
+            if kind == "ntsub":
+                return P2Sub(v, ("L%d" % i,))
+            return make_dc("D2F", ["L%d" % i, v])
+        a, b = {el(i, inc(i)) for i in range(n)}, {el(i, i + 100) for i in range(n)}
+        return wrap(a), wrap(b)
+
+    for kind in ("tuple", "nt", "ntsub", "dc"):
+        fixed.append(labelled_set(12, kind, lambda x: x))
+    fixed.append(labelled_set(16, "tuple", lambda x: [x, 1]))
+    fixed.append(labelled_set(12, "nt", lambda x: {"k": (x,)}))
+    rnd = [labelled_set(rng.choice([10, 12, 20]), rng.choice(["tuple", "nt", "ntsub", "dc"]),
+                        rng.choice([lambda x: x, lambda x: [x], lambda x: make_dc("D2", [x, 0])])) for _ in range(ctx.n(6, 60))]
+    todo = fixed + rnd + [build(rng.choice([1, 2, 3])) for _ in range(ctx.n(40, 400))]
     for expr, want in todo:
         text = to_sx_expr(expr)
         try:
@@ -675,8 +697,14 @@ def scheduler_stage(ctx, g):
             ctx.violation(sig, "Scheduler.run of a nested value with expressions raised", case=text,
                           expected=to_sx(want), actual=gtext)
         elif gtext.startswith("?") or canon(parse(gtext)) != canon(parse(to_sx(want))):
-            ctx.violation("C19-nested-expression-not-evaluated", "Scheduler.run did not replace every nested expression by its value",
-                          case=text, expected=to_sx(want), actual=gtext)
+            swapped = not gtext.startswith("?") and sorted(leaves_of(parse(gtext), [])) == sorted(leaves_of(parse(to_sx(want)), []))
+            if swapped:
+                ctx.violation("C19-nested-expression-replaced-by-another-result",
+                              "Scheduler.run put the result of one nested expression in the place of another one", case=text,
+                              expected=to_sx(want), actual=gtext)
+            else:
+                ctx.violation("C19-nested-expression-not-evaluated", "Scheduler.run did not replace every nested expression by its value",
+                              case=text, expected=to_sx(want), actual=gtext)
 
 
 def to_sx_expr(v):
